@@ -98,6 +98,42 @@ Definition rbk_set (s : store) (bk : bytes) (i : N) (e : bytes) : store :=
   if 9223372036854775808 <=? i then s
   else match r_lset s bk i e with Some s' => s' | None => s end.
 
+(* ---------- Export / Import / Equals (cuckoo_filter_redis.go:231-310, bucket_redis.go restore/equals) ---------- *)
+(* one exported bucket: (size, length counter, list, key) *)
+Definition rck_export_bucket (s : store) (h : rcuckoo) (i : N) : N * N * list bytes * bytes :=
+  let bk := bucket_key (rq_key h) i in (rq_bsize h, rbk_get_length s bk, r_list s bk, bk).
+Definition rck_export_buckets (s : store) (h : rcuckoo) : list (N * N * list bytes * bytes) :=
+  map (rck_export_bucket s h) (nseq (rq_size h)).
+
+(* restore script: DEL list; RPUSH every element; SET counter = number of non-empty elements *)
+Definition count_nonempty (l : list bytes) : N :=
+  N.of_nat (length (filter (fun e => match e with [] => false | _ => true end) l)).
+Definition rbk_restore (s : store) (bk : bytes) (elems : list bytes) : store :=
+  r_set (r_rpush (sdel s bk) bk elems) (len_key bk) (dec (count_nonempty elems)).
+
+(* Import: metadata (with the exported length), the bucket-key list, then per exported bucket
+   newBucketRedis (INCRBY 0) and restore *)
+Definition rck_import (s : store) (size bsize fpl retries len : N) (bks : list (list bytes))
+           (key meta : bytes) : rcuckoo * store :=
+  let h := mkRck size bsize fpl retries key meta in
+  let s1 := rck_init_buckets (rck_set_metadata s h len) h in
+  (h, fold_left (fun st ib => let bk := bucket_key key (fst ib) in
+                              rbk_restore (incr0 st (len_key bk)) bk (snd ib))
+                (combine (nseq (N.of_nat (length bks))) bks) s1).
+
+(* bucket equals script: the first `size` positions of both lists agree (missing = nil) *)
+Definition rbk_equals (s : store) (bk1 bk2 : bytes) (size : N) : bool :=
+  forallb (fun i => match nthN (r_list s bk1) i, nthN (r_list s bk2) i with
+                    | Some a, Some b => bytes_eqb a b
+                    | None, None => true
+                    | _, _ => false
+                    end) (nseq size).
+Definition rck_equals (s : store) (a b : rcuckoo) : bool :=
+  (rq_size a =? rq_size b) && (rq_bsize a =? rq_bsize b) && (rq_fpl a =? rq_fpl b) &&
+  (rq_retries a =? rq_retries b) && (rck_length s a =? rck_length s b) &&
+  forallb (fun i => rbk_equals s (bucket_key (rq_key b) i) (bucket_key (rq_key a) i) (rq_bsize b))
+          (nseq (rq_size a)).
+
 Section WithHash.
 Variable h64 : bytes -> N.
 
